@@ -1,0 +1,240 @@
+//go:build verif
+
+package rpc
+
+// Verification hook points of the clock-sync PROTOCOL (build tag "verif"
+// only): the server's two producers of diffs (pushClient and the replies of
+// Remote{Add,Remove,Set}, both relative to Server.lastPushData), the hello
+// reset, and the client's three consumers (clockUpdate, clockSet,
+// updateStatesSchema). A point is either a RECORD point (called under the lock
+// that protects the change; the hook must not block) or a GATE point (called
+// where no package lock is held, except "rpc.push.beforeNotify" which is
+// deliberately under lockExport, like the Notify it precedes; the hook may
+// block the calling goroutine). With no hook installed every point is a
+// no-op; nothing here changes the behaviour of the package.
+
+import (
+	"slices"
+	"sync/atomic"
+
+	am "github.com/pancsta/asyncmachine-go/pkg/machine"
+)
+
+// VerifSyncSnap is an exported copy of the clock part of a tracerData (or of
+// the mirror on the client side).
+type VerifSyncSnap struct {
+	// Nil is true for a nil *tracerData.
+	Nil bool
+	// NilTime is true for a nil time slice.
+	NilTime    bool
+	Time       am.Time
+	QueueTick  uint64
+	MachTick   uint32
+	TrackedSum uint64
+	Checksum   uint8
+}
+
+// VerifSyncEvent is what a hook point exposes.
+type VerifSyncEvent struct {
+	// Owner is the *Server or *Client the point belongs to.
+	Owner any
+	Point string
+	// Kind: "push" | "reply" for rpc.lastpush.store.
+	Kind string
+	// From / To: lastPushData before / after (server), mirror before / after
+	// (client), source snapshot in To (rpc.tracer.snapshot, rpc.hello).
+	From, To *VerifSyncSnap
+	// Update is the message about to be sent / being applied.
+	Update *MsgSrvUpdate
+	// Updates is the per-mutation variant.
+	Updates *MsgSrvUpdateMuts
+	// Result of the source mutation (rpc.remote.afterReply).
+	Result am.Result
+	// Accepted is the checksum verdict (rpc.client.applied).
+	Accepted bool
+	// Tracked is the list of synced states (rpc.hello, rpc.client.hello).
+	Tracked am.S
+	// Names are the state names the time slices are indexed by.
+	Names am.S
+}
+
+// VerifSyncHook is called at every point when set.
+var VerifSyncHook atomic.Pointer[func(ev *VerifSyncEvent)]
+
+func verifSyncSnapData(d *tracerData) *VerifSyncSnap {
+	if d == nil {
+		return &VerifSyncSnap{Nil: true, NilTime: true}
+	}
+	return &VerifSyncSnap{
+		NilTime:    d.mTime == nil,
+		Time:       slices.Clone(d.mTime),
+		QueueTick:  d.queueTick,
+		MachTick:   d.machTick,
+		TrackedSum: d.mTrackedTimeSum,
+		Checksum:   d.checksum,
+	}
+}
+
+func verifSyncSnapTime(t am.Time, q uint64, m uint32) *VerifSyncSnap {
+	return &VerifSyncSnap{
+		NilTime:   t == nil,
+		Time:      slices.Clone(t),
+		QueueTick: q,
+		MachTick:  m,
+	}
+}
+
+func verifSyncCopyUpdate(u *MsgSrvUpdate) *MsgSrvUpdate {
+	if u == nil {
+		return nil
+	}
+	c := *u
+	c.Indexes = slices.Clone(u.Indexes)
+	c.Ticks = slices.Clone(u.Ticks)
+	return &c
+}
+
+func verifSyncCopyMuts(u *MsgSrvUpdateMuts) *MsgSrvUpdateMuts {
+	if u == nil {
+		return nil
+	}
+	c := &MsgSrvUpdateMuts{MutationType: slices.Clone(u.MutationType)}
+	for _, cs := range u.CalledStates {
+		c.CalledStates = append(c.CalledStates, slices.Clone(cs))
+	}
+	for i := range u.Updates {
+		c.Updates = append(c.Updates, *verifSyncCopyUpdate(&u.Updates[i]))
+	}
+	return c
+}
+
+// verifSyncAt is the single entry of all call sites. The meaning of args
+// depends on the point (see the switch).
+func verifSyncAt(owner any, point string, args ...any) {
+	h := VerifSyncHook.Load()
+	if h == nil {
+		return
+	}
+	ev := &VerifSyncEvent{Owner: owner, Point: point}
+	switch point {
+
+	// sourceTracer.TransitionEnd, under lockCollection: (d *tracerData)
+	case "rpc.tracer.snapshot":
+		ev.To = verifSyncSnapData(args[0].(*tracerData))
+
+	// RemoteHello after "memorize", under lockCollection: (s *Server)
+	case "rpc.hello":
+		s := args[0].(*Server)
+		ev.To = verifSyncSnapData(s.lastPushData)
+		ev.Tracked = slices.Clone(s.tracer.trackedStates)
+
+	// RemoteHandshake after rpcClient.Store: ()
+	case "rpc.handshake":
+
+	// rpc2's OnConnect callback (its own goroutine, no locks), before
+	// ClientConnected is added: ()
+	case "rpc.server.onConnect":
+
+	// rpc2's OnDisconnect callback (its own goroutine, no locks), before
+	// ClientConnected is removed: ()
+	case "rpc.server.onDisconnect":
+
+	// pushUpdateLatest / pushUpdateMutations right before Notify, under
+	// lockExport: (update *MsgSrvUpdate | *MsgSrvUpdateMuts)
+	case "rpc.push.beforeNotify":
+		switch u := args[0].(type) {
+		case *MsgSrvUpdate:
+			ev.Update = verifSyncCopyUpdate(u)
+		case *MsgSrvUpdateMuts:
+			ev.Updates = verifSyncCopyMuts(u)
+		}
+
+	// pushClient after the Notify (or after "nothing to push"), before
+	// storeLastPush, under lockExport: ()
+	case "rpc.push.beforeStore":
+
+	// storeLastPush, under lockExport: (kind string, old, new *tracerData)
+	case "rpc.lastpush.store":
+		ev.Kind = args[0].(string)
+		ev.From = verifSyncSnapData(args[1].(*tracerData))
+		ev.To = verifSyncSnapData(args[2].(*tracerData))
+
+	// Remote{Add,Remove,Set}: deferred, runs after lockExport is released and
+	// before rpc2 writes the response: (resp *MsgSrvMutation)
+	case "rpc.remote.afterReply":
+		r := args[0].(*MsgSrvMutation)
+		ev.Result = r.Result
+		ev.Update = verifSyncCopyUpdate(r.Update)
+		ev.Updates = verifSyncCopyMuts(r.Mutations)
+
+	// HandshakingState, after the handshake call returned and before the
+	// HandshakeDone mutation (no locks): ()
+	case "rpc.client.handshaked":
+
+	// clientNetMachConn.Call, the CALLING goroutine got the reply and is about
+	// to apply it (no locks): (resp *MsgSrvMutation)
+	case "rpc.client.beforeReplyApply":
+		r := args[0].(*MsgSrvMutation)
+		ev.Result = r.Result
+		ev.Update = verifSyncCopyUpdate(r.Update)
+		ev.Updates = verifSyncCopyMuts(r.Mutations)
+
+	// clockUpdate entry, before any lock (when !queueLocked):
+	// (update *MsgSrvUpdate)
+	case "rpc.client.beforeApply":
+		ev.Update = verifSyncCopyUpdate(args[0].(*MsgSrvUpdate))
+
+	// clockUpdate / clockUpdateMutations before the client's HandshakeDone: the
+	// update is dropped (no locks): (update *MsgSrvUpdate | *MsgSrvUpdateMuts)
+	case "rpc.client.dropped":
+		switch u := args[0].(type) {
+		case *MsgSrvUpdate:
+			ev.Update = verifSyncCopyUpdate(u)
+		case *MsgSrvUpdateMuts:
+			ev.Updates = verifSyncCopyMuts(u)
+		}
+
+	// Client.Sync got the answer and is about to clockSet it (no locks):
+	// (resp *MsgSrvSync)
+	case "rpc.client.sync.beforeSet":
+		r := args[0].(*MsgSrvSync)
+		ev.To = verifSyncSnapTime(r.Time, r.QueueTick, r.MachTick)
+
+	// clockUpdate verdict, under lockQueue and clockMx:
+	// (update, accepted bool, after am.Time, q uint64, m uint32)
+	case "rpc.client.applied":
+		c := owner.(*Client)
+		ev.Update = verifSyncCopyUpdate(args[0].(*MsgSrvUpdate))
+		ev.Accepted = args[1].(bool)
+		ev.From = verifSyncSnapTime(c.NetMach.machTime, c.NetMach.queueTick,
+			c.NetMach.machTick)
+		ev.To = verifSyncSnapTime(args[2].(am.Time), args[3].(uint64),
+			args[4].(uint32))
+
+	// clockSet before UpdateClock, under lockQueue and clockMx:
+	// (t am.Time, q uint64, m uint32)
+	case "rpc.client.clockSet":
+		c := owner.(*Client)
+		ev.From = verifSyncSnapTime(c.NetMach.machTime, c.NetMach.queueTick,
+			c.NetMach.machTick)
+		ev.To = verifSyncSnapTime(args[0].(am.Time), args[1].(uint64),
+			args[2].(uint32))
+
+	// updateStatesSchema end, under schemaMx and clockMx: ()
+	case "rpc.client.hello":
+		c := owner.(*Client)
+		ev.To = verifSyncSnapTime(c.NetMach.machTime, c.NetMach.queueTick,
+			c.NetMach.machTick)
+		ev.Tracked = slices.Clone(c.trackedStates)
+		ev.Names = slices.Clone(c.NetMach.stateNames)
+
+	// Client.Sync entry / (deferred) exit, no locks held: ()
+	case "rpc.client.sync.enter":
+	case "rpc.client.sync.exit":
+	}
+	(*h)(ev)
+}
+
+// VerifSyncPush runs the real Server.pushClient (what the push ticker and the
+// source tracer call).
+func VerifSyncPush(s *Server) { s.pushClient() }
